@@ -107,7 +107,7 @@ type c05Case struct {
 func shardC05(c *Ctx, shard, nshards int) {
 	draws := c.Pick(8, 64)
 	nRandom := c.Pick(3000, 120000)
-	nScenes := c.Pick(300, 6000)
+	nScenes := c.Pick(900, 9000)
 	caseNo := 0
 	mine := func() bool { caseNo++; return (caseNo-1)%nshards == shard }
 
@@ -257,6 +257,11 @@ func shardC05(c *Ctx, shard, nshards int) {
 		rk := mcRenderers[i%2]
 		cells := r.IR(4, c.Pick(14, 28))
 		s, desc := c05Scene(r)
+		if i%3 == 2 { // random 1-Lipschitz expression tree (the octree renderer's premise), boxes as the library computes them
+			if n := gen3(r, r.IR(1, 3), r.LogR(0.2, 20), genOpts{lip1Only: true}); n != nil && n.lip1 && !n.mayBeEmpty() {
+				s, desc = n.s3, "tree: "+n.desc
+			}
+		}
 		if s == nil {
 			continue
 		}
